@@ -35,6 +35,7 @@ IMPLICIT = {
 }
 ALIASES = ["A", "", "x.y", "a+", "(", "pkg", ".", "Zz"]
 MISSING = {"prefix-siblings": "pkg.abc", "nested": "r.m.", "two-roots": "a.", "deep-prefix": "s.t.u.v"}
+TOO_DEEP = {"level-limited": "r.m.n.o"}
 AX = ("AX-OBJECT",)
 
 
@@ -114,6 +115,9 @@ def kw_of(u: str, sel) -> dict:
                 al[n] = ALIASES[i % len(ALIASES)]
         if sel(("alias", "<missing>")):
             al[MISSING.get(u, nodes[-1] + ".nope")] = "M"
+        if u in IMPLICIT and IMPLICIT[u]["level_limit"] is not None and sel(("alias", "<too-deep>")):
+            # a module that was scanned but lies below the level limit is not a module of the architecture
+            al[TOO_DEEP[u]] = "D"
         kw["aliases"] = al
     if sel(("opt", "spacing")):
         kw["spacing"] = 0.37
@@ -126,7 +130,8 @@ def kw_of(u: str, sel) -> dict:
 
 def keys_of(u: str) -> list:
     nodes = nodes_of(u)
-    return [(("opt", o), 2) for o in ("aliases", "spacing", "node_size", "ax")] + [(("alias", n), 2) for n in nodes] + [(("alias", "<missing>"), 2)]
+    extra = [(("alias", "<too-deep>"), 2)] if u in TOO_DEEP else []
+    return [(("opt", o), 2) for o in ("aliases", "spacing", "node_size", "ax")] + [(("alias", n), 2) for n in nodes] + [(("alias", "<missing>"), 2)] + extra
 
 
 def instances(tier: str) -> list[dict]:
